@@ -11,6 +11,43 @@ ASSUMPTIONS = ["the sectioning loop of the reader is modelled line by line (Mode
 NAMES = {0: "undefined", 1: "soma", 2: "axon", 3: "basal", 4: "apical", 5: "custom"}
 
 
+def expected_split_lengths(rows, sections, single_point_soma, mbl):
+    """what read_swc(max_branch_len=mbl) must produce, piece by piece (independent of the code; the rule of
+    Model/SwcSplit.v): a section longer than mbl is cut into k = 2, 3, ... pieces at the traced points i*segments//k
+    until no piece is longer than mbl, k = 11, or every segment is a piece of its own; the zero-length segment from a
+    single-point soma stays with the first piece.  Returns the sorted piece lengths."""
+    xyz = {int(r[0]): (float(r[2]), float(r[3]), float(r[4])) for r in rows}
+    typ = {int(r[0]): int(r[1]) for r in rows}
+    rad = {int(r[0]): float(r[5]) for r in rows}
+    out = []
+    for sec in sections:
+        sec = [int(p) for p in sec]
+        if sec == [0]:
+            out.append(0.1)           # the artificial root branch that joins several sections starting at the root point
+            continue
+        if len(sec) == 1:
+            out.append(2 * rad[sec[0]])
+            continue
+        seg = [math.dist(xyz[a], xyz[b]) for a, b in zip(sec, sec[1:])]
+        gap = single_point_soma and typ[sec[0]] == 1 and typ[sec[1]] != 1
+        if gap:
+            seg[0] = 0.0
+        pieces = [seg]
+        k = 1
+        while max(sum(p) for p in pieces) > mbl:
+            k += 1
+            body = seg[1:] if (gap and len(sec) > 2) else seg
+            kk = max(1, min(k, len(body)))
+            cuts = [(i * len(body)) // kk for i in range(kk + 1)]
+            pieces = [body[cuts[i]:cuts[i + 1]] for i in range(kk)]
+            if gap and len(sec) > 2:
+                pieces[0] = [seg[0]] + pieces[0]
+            if k > 10 or kk < k:
+                break
+        out += [sum(p) for p in pieces]
+    return sorted(out)
+
+
 def forced_max_branch_len(path, viol):
     """dense tracings in which every traced segment is far below max_branch_len, so the file is splittable:
     the total length must not depend on max_branch_len.  (Before the repairs of F25 / F63, _split_branch_equally cut by
@@ -77,6 +114,7 @@ def run(ctx):
     coq_jobs = []
     loop_jobs = []
     n_outside_theorem = 0
+    n_split_oracle = 0
     nloop = 0
     work = os.path.join(os.path.dirname(os.path.dirname(os.path.dirname(os.path.abspath(__file__)))), ".work")
     os.makedirs(work, exist_ok=True)
@@ -143,8 +181,15 @@ def run(ctx):
             L3 = [float(cell3.branch(b).nodes["length"].sum()) for b in range(len(cell3.comb_parents))]
             if abs(sum(L3) - sum(L)) > 1e-6 * max(1.0, sum(L)):
                 viol.append(dict(case, kind="max_branch_len splitting changed the total length", max_branch_len=mbl, got=sum(L3), expected=sum(L)))
-            if not coarse and max(L3) > mbl + 1e-9 and max(L3) > max([x for x in L if x <= mbl] + [0.0]) + 1e-9:
-                viol.append(dict(case, kind="a branch is longer than max_branch_len after splitting", max_branch_len=mbl, longest=max(L3)))
+            sps3 = bool(swcref.sections(rows)[3])
+            base3 = expected_split_lengths(rows, ref["sections"], sps3, float("inf"))
+            want3 = expected_split_lengths(rows, ref["sections"], sps3, mbl)
+            # (the oracle is used only where its unsplit lengths agree with the reference lengths of tools/swcref.py)
+            consistent3 = len(base3) == len(L) and max(abs(a - b) for a, b in zip(base3, sorted(L))) <= 1e-6 * max(1.0, max(L))
+            n_split_oracle += int(consistent3)
+            if consistent3 and (len(want3) != len(L3) or max(abs(a - b) for a, b in zip(sorted(L3), want3)) > 1e-6 * max(1.0, max(want3))):
+                viol.append(dict(case, kind="the pieces produced by max_branch_len differ from the splitting rule (cut at the points i*segments//k, smallest k <= 11 with no piece longer than the bound)",
+                                 max_branch_len=mbl, got=sorted(L3), expected=want3))
         except Exception as ex:
             viol.append(dict(case, kind="read_swc with max_branch_len raised", max_branch_len=mbl, error=repr(ex)[:300], coarse=coarse, finding_class=None))
         # the line-by-line model of the reader's sectioning loop (Model/SwcRead.v; C16_sectioning_loop_correct
@@ -237,7 +282,7 @@ def run(ctx):
     viol = out
     return {"evaluations": evals, "distinct_nontrivial": len(distinct),
             "rule": "random depth-first SWC trees (single- and multi-point somata, neurites starting at the root or at the soma end, type changes at branch points, 12-40 points), ncomp in 1..4, optional min_radius: sections/connectivity, branch types, lengths, radii at compartment centres and type groups against tools/swcref.py; independence of ncomp; max_branch_len keeps the total length; the reader's own sections run through the proved checker; distinct by (types, parents) of the file",
-            "samples": samples, "violations": viol[:20], "traces_validated_against_impl": len(coq_jobs), "sectioning_loops_compared_with_model": nloop, "files_outside_the_hypotheses_of_C16_sectioning_loop_correct": n_outside_theorem}
+            "samples": samples, "violations": viol[:20], "traces_validated_against_impl": len(coq_jobs), "sectioning_loops_compared_with_model": nloop, "files_outside_the_hypotheses_of_C16_sectioning_loop_correct": n_outside_theorem, "files_checked_against_the_split_oracle": n_split_oracle}
 
 
 def _sections_from_impl(path):
